@@ -13,9 +13,11 @@ negative references address the most recently defined values):
   ["const", v]                             arith.constant defined where the statement stands (possibly inside a loop)
   ["dim", mref, k]                         memref.dim (index constant at function top or inline, see "inline_idx")
   ["amin", cap, lvl, swapped]              affine.min (d0)[s0] -> (cap, s0 - d0) on an enclosing loop's (iv, ub); swapped = result order reversed
-  ["alloc", [sizespec, ...]]               memref.alloc rank 1 or 2
+  ["alloc", [sizespec, ...]]               memref.alloc rank 1..3
   ["subview", mref, [[offspec, sizespec], [offspec, sizespec]]]   memref.subview (unit strides, not rank reducing)
   ["use", [mref, ...], [vref, ...]]        "test.op"(memrefs, index values) {tag}         tagged side effect
+  ["chain", spec]                          size chain (see _chain): leaf size -> subview -> memref.dim -> [subview -> memref.dim] -> alloc + use,
+                                           expanded by the builder, which knows the ranks of the memrefs the references resolve to
   ["for", hdr, body, carried]              scf.for; hdr = {"lb": bspec, "ub": bspec, "step": sspec};
                                            carried = [["i", init vref, yield vref] | ["m", init mref, yield mref], ...]
   ["if", [pred, vref, vref], then, else]   scf.if on arith.cmpi
@@ -31,6 +33,7 @@ from hypothesis import strategies as st
 
 PURE_OPS = ["addi", "muli", "subi", "minsi", "maxsi"]
 ELT = "i32"
+STATIC_EXT = [[16, 14, 15], [18, 17, 20], [19, 22, 21]]  # static extents of memref arguments, by (argument, dimension)
 
 
 # ------------------------------------------------------------------------------------ strategies
@@ -85,7 +88,7 @@ def _sizespec(draw, memrefy=True):
     if k == "v":
         return ["v", draw(_vref())]
     if k == "d":
-        return ["d", draw(_mref()), draw(st.integers(0, 1))]
+        return ["d", draw(_mref()), draw(st.integers(0, 2))]
     return ["m", draw(st.sampled_from([2, 3, 4, 8])), draw(st.integers(0, 2))]
 
 
@@ -99,11 +102,59 @@ def _offspec(draw):
 WEIGHTS = {
     # weights of the non-control statement kinds per flavour ("tile" = subview + alloc sized by its dims + use, the shape the
     # memory-space passes leave behind for reuse-memref-allocs)
-    "canon": dict(mark=8, call=2, val=1, pure=3, const=1, dim=0, amin=0, alloc=1, subview=0, use=1, tile=0, pingpong=0),
-    "reuse": dict(mark=3, call=1, val=1, pure=2, const=2, dim=3, amin=2, alloc=5, subview=3, use=5, tile=5, pingpong=1),
-    "both": dict(mark=4, call=1, val=1, pure=2, const=1, dim=2, amin=1, alloc=3, subview=2, use=4, tile=4, pingpong=1),
+    # "chain" = a size that reaches an alloc through one or two subview/dim links (see _chain)
+    "canon": dict(mark=8, call=2, val=1, pure=3, const=1, dim=0, amin=0, alloc=1, subview=0, use=1, tile=0, pingpong=0, chain=0),
+    "reuse": dict(mark=3, call=1, val=1, pure=2, const=2, dim=3, amin=2, alloc=5, subview=3, use=5, tile=5, pingpong=1, chain=4),
+    "both": dict(mark=4, call=1, val=1, pure=2, const=1, dim=2, amin=1, alloc=3, subview=2, use=4, tile=4, pingpong=1, chain=2),
 }
-OBSERVABLE = ("mark", "call", "val", "use", "for", "if")
+OBSERVABLE = ("mark", "call", "val", "use", "for", "if", "chain")
+
+
+@st.composite
+def _chain(draw):
+    """A size that travels through subview/dim links before it sizes a buffer:
+
+        %s0 = leaf                                      memref.dim %src, J | affine.min | in-loop constant | any visible index
+        [tagged user of %s0]                            (so that %s0 itself is not hoisted first)
+        %t1 = memref.subview %A[..] [.., %s0 at position I1, ..]
+        %s1 = memref.dim %t1, I1                        I1 != J where the ranks allow it ("diff")
+        [tagged user of %s1]
+        [%t2 = memref.subview %B[..] [.., %s1 at position I2, ..];  %s2 = memref.dim %t2, I2]
+        [scf.for {]  %buf = memref.alloc(%s_last [, other]) ; "test.op"(%t_last, %buf)  [}]
+
+    Memref references are resolved by the builder (which knows the ranks); the other sizes of the subviews are arbitrary size specs, so
+    the position of a dynamic size among the size operands differs from its dimension index."""
+    lk = draw(st.sampled_from(["dim"] * 7 + ["amin"] * 2 + ["const", "v"]))
+    if lk == "dim":
+        # mostly a function argument (references 0..2 address the memref arguments)
+        leaf = ["dim", draw(st.one_of(st.integers(0, 2), _mref())), draw(st.integers(0, 2))]
+    elif lk == "amin":
+        leaf = ["amin", draw(st.sampled_from([2, 3, 4, 8])), draw(st.integers(0, 2))]
+    elif lk == "const":
+        leaf = ["const", draw(st.sampled_from([1, 2, 3, 4, 8]))]
+    else:
+        leaf = ["v", draw(_vref())]
+    levels = []
+    nlev = draw(st.sampled_from([1, 1, 1, 1, 2, 2, 2, 3]))
+    for li in range(nlev):
+        levels.append(dict(
+            src=draw(st.one_of(st.integers(0, 2), _mref())),
+            i=draw(st.integers(0, 2)),
+            diff=draw(st.sampled_from([True, True, True, False])),
+            read=draw(st.sampled_from([None] * 7 + [0, 1])),  # None: the dim reads the position the chained size sits at
+            offs=[draw(_offspec()) for _ in range(3)],
+            others=[draw(_sizespec()) for _ in range(3)],
+            users=draw(st.sampled_from([0, 0, 1, 2]) if li + 1 < nlev else st.sampled_from([0] * 6 + [1, 2])),
+        ))
+    return ["chain", dict(
+        leaf=leaf,
+        leaf_users=draw(st.sampled_from([0, 1, 1, 2])),
+        levels=levels,
+        second=draw(st.one_of(st.none(), st.none(), _sizespec())),  # a second alloc dimension
+        nest=draw(st.sampled_from([0, 0, 0, 0, 0, 1, 2])),  # 1: alloc + use inside a further loop; 2: last dim too
+        nest_ub=draw(st.sampled_from([1, 2, 3])),
+        use_idx=draw(_vrefs(0, 1)),
+    )]
 
 
 @st.composite
@@ -117,13 +168,15 @@ def _simple(draw, kinds):
     if k == "const":
         return [["const", draw(st.sampled_from([0, 1, 2, 3, 4, 8]))]]
     if k == "dim":
-        return [["dim", draw(_mref()), draw(st.integers(0, 1))]]
+        return [["dim", draw(_mref()), draw(st.integers(0, 2))]]
     if k == "amin":
         return [["amin", draw(st.sampled_from([2, 3, 4, 8])), draw(st.integers(0, 2)), draw(st.sampled_from([False] * 7 + [True]))]]
+    if k == "chain":
+        return [draw(_chain())]
     if k == "alloc":
-        return [["alloc", draw(st.lists(_sizespec(), min_size=1, max_size=2))]]
+        return [["alloc", draw(st.lists(_sizespec(), min_size=1, max_size=draw(st.sampled_from([2, 2, 2, 3]))))]]
     if k == "subview":
-        return [["subview", draw(_mref()), [[draw(_offspec()), draw(_sizespec())] for _ in range(2)]]]
+        return [["subview", draw(_mref()), [[draw(_offspec()), draw(_sizespec())] for _ in range(draw(st.sampled_from([2, 2, 3])))]]]
     if k == "use":
         return [["use", draw(st.lists(_mref(), min_size=1, max_size=2)), draw(_vrefs(0, 2))]]
     if k == "pingpong":
@@ -192,7 +245,11 @@ def _inputs(draw, nidx, mems, nloops, nvec):
     vecs = []
     for _ in range(nvec):
         a = [draw(st.integers(0, 9)) for _ in range(nidx)]
-        m = [[draw(st.integers(1, 12)) for _ in dims] for dims in mems]
+        # every dynamic extent of every memref argument is different (a pass that reads the wrong dimension or the wrong memref
+        # is then visible in the evaluated sizes)
+        ndyn = sum(len(dims) for dims in mems)
+        ext = draw(st.lists(st.integers(1, 13), min_size=ndyn, max_size=ndyn, unique=True))
+        m = [[ext.pop() for _ in dims] for dims in mems]
         loops = []
         for _ in range(nloops):
             lb = draw(st.sampled_from([0, 0, 0, 1, 2, 5]))
@@ -208,8 +265,12 @@ def program(draw, tier="quick", flavour="canon"):
     depth = 3
     budget = 9 if tier == "quick" else 14
     nidx = draw(st.integers(1, 3))
-    nmem = draw(st.integers(1, 2))
-    mems = [[draw(st.sampled_from([0, 0, 0, 4, 16])) for _ in range(draw(st.integers(1, 2)))] for _ in range(nmem)]
+    # memref arguments of different ranks; a static extent is different for every (argument, dimension) and from every run-time extent
+    if flavour == "canon":
+        nmem, ranks = draw(st.integers(1, 2)), [1, 2]
+    else:
+        nmem, ranks = draw(st.sampled_from([1, 2, 2, 3, 3])), [1, 2, 2, 2, 3, 3]
+    mems = [[draw(st.sampled_from([0, 0, 0, STATIC_EXT[k][p]])) for p in range(draw(st.sampled_from(ranks)))] for k in range(nmem)]
     consts = draw(st.lists(st.sampled_from([0, 1, 2, 3, 4, 8]), min_size=1, max_size=3, unique=True))
     body = draw(_block(flavour, depth, budget)(top=True))
     inputs = draw(_inputs(nidx, mems, count_loops(body), 2))
@@ -320,6 +381,145 @@ def build(recipe) -> Built:
         b.features.add("amin_swapped" if swapped else "amin")
         return r
 
+    def emit_alloc_op(pairs, out, pad):
+        """pairs: (static int | None, ssa name | None) per dimension."""
+        dims = [sv for sv, _ in pairs]
+        dyn = [name for _, name in pairs if name is not None]
+        ty = _memref_ty(dims)
+        r = fresh("al")
+        out.append(f"{pad}{r} = memref.alloc({', '.join(dyn)}) {{alignment = 64 : i64}} : {ty}")
+        b.features.add("alloc")
+        return _Mem(r, ty, dims)
+
+    def emit_subview_op(src, offs, pairs, out, pad):
+        dims = [sv for sv, _ in pairs]
+        sizes = [str(sv) if name is None else name for sv, name in pairs]
+        ty = _memref_ty(dims, strided=True)
+        r = fresh("sv")
+        out.append(f"{pad}{r} = memref.subview {src.name}[{', '.join(offs)}] [{', '.join(sizes)}] [{', '.join('1' for _ in dims)}] : {src.ty} to {ty}")
+        b.features.add("subview")
+        return _Mem(r, ty, dims)
+
+    def emit_mark(names, tys, out, pad):
+        out.append(f'{pad}"test.op"({", ".join(names)}) {{tag = {tag()} : i64}} : ({", ".join(tys)}) -> ()')
+
+    def emit_chain(c, ipool, mpool, ind, loops, out):
+        """See _chain. Outside every loop nothing would be hoisted: the whole chain then gets a loop of its own."""
+        b.features.add("chain")
+        if loops:
+            emit_chain_body(c, ipool, mpool, ind, loops, out)
+            return
+        _, iloops, ipool_in, hdr = open_loop(c["nest_ub"] + 1, ind, loops, ipool, out)
+        inner: list[str] = []
+        emit_chain_body(c, ipool_in, list(mpool), ind + 1, iloops, inner)
+        close_loop(hdr, inner, ind, out)
+        b.features.add("chain:in-own-loop")
+
+    def emit_chain_body(c, ipool, mpool, ind, loops, out):
+        """Values defined here become visible to later statements only at the end (references inside stay stable)."""
+        pad = "  " * ind
+        leaf = c["leaf"]
+        prev_idx, prev_src = None, None  # dimension index / source memref of the previous link
+        if leaf[0] == "dim":
+            srcm = pick(mpool, leaf[1])
+            prev_idx, prev_src = leaf[2] % len(srcm.dims), srcm.name
+            cur = emit_dim(srcm, prev_idx, out, pad)
+            if srcm.name.startswith("%m"):
+                b.features.add("chain:leaf-dim-of-argument")
+        elif leaf[0] == "amin":
+            cur = emit_amin(leaf[1], leaf[2], False, loops, ipool, out, pad)
+        elif leaf[0] == "const":
+            cur = fresh("lc")
+            out.append(f"{pad}{cur} = arith.constant {leaf[1]} : index")
+        else:
+            cur = pick(ipool, leaf[1])
+        b.features.add(f"chain:leaf-{leaf[0]}")
+        new_i = [] if leaf[0] == "v" else [cur]
+        new_m = []
+        late = []
+
+        def users(kind, name, what):
+            if kind == 1:
+                emit_mark([name], ["index"], out, pad)
+            elif kind == 2:
+                late.append(name)
+            if kind:
+                b.features.add(f"chain:{what}-has-tagged-user")
+
+        users(c["leaf_users"], cur, "leaf")
+        nest = c["nest"]
+        inner: list[str] = []
+        ipad, iloops, ipool_in = pad, loops, ipool
+        tile = None
+        nlev = len(c["levels"])
+        for li, lv in enumerate(c["levels"]):
+            tm = pick(mpool, lv["src"])
+            rank = len(tm.dims)
+            pos = lv["i"] % rank
+            if lv["diff"] and prev_idx is not None and pos == prev_idx and rank > 1:
+                pos = (pos + 1) % rank
+            offs, pairs = [], []
+            for j in range(rank):
+                ospec = lv["offs"][j % len(lv["offs"])]
+                offs.append(str(ospec[1]) if ospec[0] == "s" else pick(ipool, ospec[1]))
+                pairs.append((None, cur) if j == pos else emit_size(lv["others"][j % len(lv["others"])], ipool, mpool, loops, out, pad))
+            tile = emit_subview_op(tm, offs, pairs, out, pad)
+            new_m.append(tile)
+            if prev_idx is not None:
+                b.features.add("chain:index-differs-from-previous-link" if pos != prev_idx else "chain:index-same-as-previous-link")
+                if prev_src != tm.name:
+                    b.features.add("chain:link-on-other-memref")
+            if sum(1 for sv, _ in pairs[:pos] if sv is None) != pos:
+                b.features.add("chain:size-operand-position-differs-from-dim-index")
+            rd = pos if lv["read"] is None else lv["read"] % rank
+            if rd != pos:
+                b.features.add("chain:dim-reads-other-position")
+            if li + 1 == nlev and nest == 2:
+                # the last dim sits in the consumer's loop, its subview before that loop
+                ipad, iloops, ipool_in, hdr = open_loop(c["nest_ub"], ind, loops, ipool, out)
+            cur = emit_dim(tile, rd, out if ipad == pad else inner, ipad)
+            if ipad == pad:
+                new_i.append(cur)
+                users(lv["users"], cur, "inner-dim" if li + 1 < nlev else "last-dim")
+            prev_idx, prev_src = rd, tile.name
+        b.features.add(f"chain:levels-{nlev}")
+        if nest == 1:
+            ipad, iloops, ipool_in, hdr = open_loop(c["nest_ub"], ind, loops, ipool, out)
+        tgt = out if ipad == pad else inner
+        pairs = [(None, cur)]
+        if c["second"] is not None:
+            pairs.append(emit_size(c["second"], ipool_in, mpool, iloops, tgt, ipad))
+        buf = emit_alloc_op(pairs, tgt, ipad)
+        ops = [pick(ipool_in, r) for r in c["use_idx"]]
+        if ipad != pad:
+            ops = [ipool_in[-1]] + ops  # the consumer loop's induction variable
+        emit_mark([tile.name, buf.name] + ops, [tile.ty, buf.ty] + ["index"] * len(ops), tgt, ipad)
+        b.features.add("use")
+        if ipad != pad:
+            close_loop(hdr, inner, ind, out)
+            b.features.add(f"chain:consumer-in-own-loop-{nest}")
+        else:
+            new_m.append(buf)
+        for name in late:
+            emit_mark([name], ["index"], out, pad)
+        ipool.extend(new_i)
+        mpool.extend(new_m)
+
+    def open_loop(ub, ind, loops, ipool, out):
+        iv = fresh("i")
+        names = (hconst(0), hconst(ub), hconst(1))
+        return "  " * (ind + 1), loops + [(iv, names[1])], list(ipool) + [iv], (iv, names)
+
+    def close_loop(hdr, body_lines, ind, out):
+        pad = "  " * ind
+        iv, names = hdr
+        out.append(f'{pad}"scf.for"({", ".join(names)}) ({{')
+        out.append(f"{pad}^bb0({iv}: index):")
+        out.extend(body_lines)
+        out.append(f'{pad}  "scf.yield"() : () -> ()')
+        out.append(f"{pad}}}) : (index, index, index) -> ()")
+        b.features.add("loop")
+
     loop_arg_decls: list[tuple[str, str]] = []
 
     def emit_block(stmts, ipool, mpool, ind, loops):
@@ -354,31 +554,15 @@ def build(recipe) -> Built:
             elif k == "amin":
                 ipool.append(emit_amin(s[1], s[2], s[3], loops, ipool, out, pad))
             elif k == "alloc":
-                dims, dyn = [], []
-                for spec in s[1][:2]:
-                    sv, name = emit_size(spec, ipool, mpool, loops, out, pad)
-                    dims.append(sv)
-                    if name is not None:
-                        dyn.append(name)
-                ty = _memref_ty(dims)
-                r = fresh("al")
-                out.append(f"{pad}{r} = memref.alloc({', '.join(dyn)}) {{alignment = 64 : i64}} : {ty}")
-                mpool.append(_Mem(r, ty, dims))
-                b.features.add("alloc")
+                mpool.append(emit_alloc_op([emit_size(spec, ipool, mpool, loops, out, pad) for spec in s[1][:3]], out, pad))
             elif k == "subview":
                 src = pick(mpool, s[1])
-                offs, sizes, dims = [], [], []
+                offs, pairs = [], []
                 for j in range(len(src.dims)):
                     ospec, sspec = s[2][j % len(s[2])]
                     offs.append(str(ospec[1]) if ospec[0] == "s" else pick(ipool, ospec[1]))
-                    sv, name = emit_size(sspec, ipool, mpool, loops, out, pad)
-                    dims.append(sv)
-                    sizes.append(str(sv) if name is None else name)
-                ty = _memref_ty(dims, strided=True)
-                r = fresh("sv")
-                out.append(f"{pad}{r} = memref.subview {src.name}[{', '.join(offs)}] [{', '.join(sizes)}] [{', '.join('1' for _ in dims)}] : {src.ty} to {ty}")
-                mpool.append(_Mem(r, ty, dims))
-                b.features.add("subview")
+                    pairs.append(emit_size(sspec, ipool, mpool, loops, out, pad))
+                mpool.append(emit_subview_op(src, offs, pairs, out, pad))
             elif k == "use":
                 ms = [pick(mpool, r) for r in s[1]]
                 ops = [pick(ipool, r) for r in s[2]]
@@ -386,6 +570,8 @@ def build(recipe) -> Built:
                 tys = [m.ty for m in ms] + ["index"] * len(ops)
                 out.append(f'{pad}"test.op"({", ".join(names)}) {{tag = {tag()} : i64}} : ({", ".join(tys)}) -> ()')
                 b.features.add("use")
+            elif k == "chain":
+                emit_chain(s[1], ipool, mpool, ind, loops, out)
             elif k == "for":
                 _, hdr, body, carried = s
                 lid = b.nloops
